@@ -536,13 +536,33 @@ func (m *Model) Run(hist []string) *proto.Result {
 	s.ref.Top["x"] = newRB()
 	s.ref.Top["x"].KV["a"] = "0"
 	s.ref.Top["x"].KV["b"] = "0"
+	// isolation between databases: this database was created a moment ago and one transaction
+	// wrote two keys to it - nothing else may be readable (a write transaction of ANOTHER
+	// database that was rolled back earlier in this process must not surface here)
+	ovl0 := s.ovl
+	s.ovl = nil
+	mwdb.View(s.db, func(tx mwdb.ReadTransaction) error {
+		s.observe(tx, s.ref, "fresh database after its first commit", true)
+		return nil
+	})
+	s.ovl = ovl0
+	stop := len(s.viol) > 0
 	for i, op := range hist {
+		if stop {
+			break
+		}
 		ok, err := s.apply(op, m.O)
 		if err != nil {
 			r.Err = fmt.Sprintf("op %d %s: %v", i, op, err)
 			return r
 		}
 		if !ok {
+			if len(s.viol) > 0 {
+				// an earlier operation already deviated from the model (reported below): what the
+				// model enables next need not be possible on the implementation any more
+				stop = true
+				break
+			}
 			r.Err = fmt.Sprintf("op %d %s not enabled on replay", i, op)
 			return r
 		}
